@@ -1076,7 +1076,7 @@ CONSTANTS
 %s
 CHECK_DEADLOCK FALSE
 """
-MPCL_ALL_KINDS = '{"const", "lit", "bin", "cmp", "logic", "neg", "shift", "cast", "if", "ifnest", "ifret", "loop", "loopret", "nest", "shadow", "arr", "mat", "call", "struct"}'
+MPCL_ALL_KINDS = '{"const", "lit", "bin", "cmp", "logic", "neg", "shift", "cast", "if", "ifnest", "ifret", "loop", "loopret", "nest", "shadow", "expr3", "arr", "mat", "call", "struct"}'
 
 
 def mpcl_cases(ctx, name, widths, nstmts, num, kinds=MPCL_ALL_KINDS, limit=None):
@@ -1126,6 +1126,9 @@ def c03(ctx):
     # variable or by a run-time condition), a local shadowing a package-level variable across a run-time if
     cases += mpcl_cases(ctx, "mpcl-gen-f", "{3, 8}", 6, 2000 if thorough else 400, limit=6000 if thorough else 900,
                         kinds='{"cmp", "lit", "loop", "loopret", "nest", "shadow", "ifret"}')
+    # expressions of two operators without parentheses (precedence, associativity) next to plain arithmetic
+    cases += mpcl_cases(ctx, "mpcl-gen-h", "{3, 8}", 4, 1200 if thorough else 250, limit=4000 if thorough else 500,
+                        kinds='{"expr3", "neg", "const"}')
     # statements that need a boolean are starved when arithmetic is available (TLC's simulation picks uniformly among
     # successor states): comparisons, ifs, early returns and shadowing on their own
     cases += mpcl_cases(ctx, "mpcl-gen-g", "{3, 8}", 5, 1500 if thorough else 300, limit=5000 if thorough else 700,
